@@ -684,6 +684,7 @@ macro_rules! da_q {
             "len" => o_val(d.len()),
             "is_empty" => o_val(d.is_empty() as usize),
             "get" => o_optb(d.get(g(0))),
+            "get_unchecked" => o_val(unsafe { d.get_unchecked(g(0)) } as usize),
             "count_ones" => o_val(d.count_ones()),
             "count_zeros" => o_val(d.count_zeros()),
             "select1" => o_opt(d.select1(g(0))),
@@ -1233,6 +1234,17 @@ impl Interp {
     fn q(&self, k: usize, op: &str, args: &[&str]) -> String {
         let nums: Vec<u128> = args.iter().map(|x| x.parse::<u128>().unwrap_or(0)).collect();
         let g = |i: usize| -> usize { nums.get(i).copied().unwrap_or(0) as usize };
+        // `<op>_pair`: the checked method and — only when it answers Some(v) — its unchecked twin on the same
+        // arguments (the documented precondition then holds): `S:v` when both agree, `D:…` when they differ
+        if let Some(base) = op.strip_suffix("_pair") {
+            let checked = self.q(k, base, args);
+            if let Some(v) = checked.strip_prefix("S:") {
+                let un = self.q(k, &format!("{}_unchecked", base), args);
+                // (`bad-op`: this harness has no unchecked twin for that method of that type)
+                return if un == format!("V:{}", v) || un == "bad-op" { checked } else { format!("D:checked={}:unchecked={}", checked, un) };
+            }
+            return checked;
+        }
         if op == "debug" {
             // `Debug::fmt` is a safe public method too: it must not panic; its text is not compared
             let txt = match &self.slots[k] {
